@@ -12,7 +12,9 @@ Inductive bobs :=
 | OExpire (was_armed : bool)                   (* the callback now set on the timer is committed to run (late callback regime) *)
 | ODeliver (i : N) (armgen : N) (tok : Z).     (* the i-th committed callback ran and sent tok; it had been set when armgen
                                                   non-empty batches had been handed out *)
-Inductive stim := SAdd (x : N) (cancelled : bool) | SFlush (cancelled : bool) | SFire (was_armed : bool) | SHoldA | SHoldT | SRelease | SComplete (k : N) | SFail (k : N) (mode : N) | SRead.
+Inductive stim := SAdd (x : N) (cancelled : bool) | SFlush (cancelled : bool)
+  | SAddB (x : N) (cancelled : bool) | SFlushB (cancelled : bool)   (* the same calls made by a second caller goroutine *)
+  | SFire (was_armed : bool) | SHoldA | SHoldT | SRelease | SComplete (k : N) | SFail (k : N) (mode : N) | SRead.
 (* SAdd / SFlush carry the state of the context the call is made with (true = already cancelled).
    SFail k mode: the k-th running fetch returns an error, with no results (mode 0), the first half (1) or all of them (2) *)
 Definition robs := (bool * bool * bool * N * N)%type.   (* adder call unfinished, adder held, time-out flusher held, fetches running, |Output| *)
@@ -21,8 +23,10 @@ Definition rstep := (stim * robs)%type.
 Inductive case :=
 | BCase (max : N) (delay : bool) (ops : list bobs)
 | RCase (max : N) (delay : bool) (buf : N) (steps : list rstep) (added out : list N) (fetched : list (list N))
-        (fails : list (N * N)) (errs : list N) (ctxs : list (N * bool)) (settled : bool)   (* fails: (first item of a failed batch, mode); errs: first items, in the order the errors arrived;
-     ctxs: per batch handed to FetchBatch (first item, the context it received was cancelled), in item order *)
+        (fails : list (N * N)) (errs : list N) (ctxs : list (N * bool))
+        (two_callers : bool) (fetched_at_q : N) (settled : bool)   (* fails: (first item of a failed batch, mode); errs: first items, in the order the errors arrived;
+     ctxs: per batch handed to FetchBatch (first item, the context it received was cancelled), in item order;
+     fetched_at_q: items handed to FetchBatch when everything had come to rest BEFORE the engine's final explicit Flush *)
 | HCase (nadders per : N) (batches : list (list (N * N))).
 
 Fixpoint list_eqb {A} (eqb : A -> A -> bool) (a b : list A) : bool :=
@@ -199,6 +203,7 @@ Definition apply_stim (fails : list (N * N)) (p : rparams) (st : stim) (m : msta
       | None => None
       end
   | SRead => Some m
+  | SAddB _ _ | SFlushB _ => None   (* a second caller is outside the model: such cases are checked against the specification only *)
   end.
 
 Definition observe (m : mstate) : robs :=
@@ -282,6 +287,15 @@ Fixpoint ins_n (x : N) (l : list N) : list N :=
   | y :: l' => if x <=? y then x :: l else y :: ins_n x l'
   end.
 
+(* number of inputs accepted before the last timer expiry that was served (SFire true) *)
+Fixpoint expired_cover (steps : list rstep) (accepted cover : N) : N :=
+  match steps with
+  | [] => cover
+  | (SAdd _ _, _) :: r | (SAddB _ _, _) :: r => expired_cover r (accepted + 1) cover
+  | (SFire true, _) :: r => expired_cover r accepted accepted
+  | _ :: r => expired_cover r accepted cover
+  end.
+
 (* ------------------------------------------------------------------ all together *)
 
 Definition check_case (c : case) : list N :=
@@ -290,7 +304,7 @@ Definition check_case (c : case) : list N :=
       bcheck (mkBP max delay) ops b_init [] ++
       (if nlist_eqb (b_handed ops) (b_added ops) then [] else [12]) ++
       (if stale_ok ops 0 [] [] then [] else [13])
-  | RCase max delay buf steps added_o out_o fetched fails errs ctxs settled =>
+  | RCase max delay buf steps added_o out_o fetched fails errs ctxs two_callers fetched_at_q settled =>
       let p := mkRP (mkBP max delay) buf true in
       let r := rreplay fails p steps (mkCM m_init false []) [] in
       let ok := fst (fst r) in
@@ -298,8 +312,8 @@ Definition check_case (c : case) : list N :=
       let model_ctxs := combine (map (hd 0) (flushed s)) (cm_log (snd (fst r))) in
       let model_errs := map (hd 0) (filter (failed (fetchF fails)) (snd r)) in
       let failed_first := map (hd 0) (filter (failed (fetchF fails)) fetched) in
-      (if ok then [] else [4]) ++
-      (if ok then (if nlist_eqb out_o (out s) then [] else [5]) ++
+      (if ok || two_callers then [] else [4]) ++
+      (if ok && negb two_callers then (if nlist_eqb out_o (out s) then [] else [5]) ++
                   (if list_eqb nlist_eqb fetched (flushed s) then [] else [6]) ++
                   (if nlist_eqb errs model_errs then [] else [7]) ++
                   (if list_eqb (fun a b => (fst a =? fst b) && Bool.eqb (snd a) (snd b)) ctxs model_ctxs then [] else [8])
@@ -310,7 +324,10 @@ Definition check_case (c : case) : list N :=
       (if nlist_eqb (concat fetched) added_o then [] else [11]) ++
       (if settled then [] else [15]) ++
       (* every failed batch reported its error exactly once *)
-      (if nlist_eqb (fold_right ins_n [] errs) (fold_right ins_n [] failed_first) then [] else [16])
+      (if nlist_eqb (fold_right ins_n [] errs) (fold_right ins_n [] failed_first) then [] else [16]) ++
+      (* liveness at rest: whatever had been accepted when the last served time-out expired has been handed to FetchBatch
+         once every goroutine is at rest - without any further explicit Flush *)
+      (if expired_cover steps 0 0 <=? fetched_at_q then [] else [17])
   | HCase nadders per batches =>
       (if forallb (fun b => forallb (fun e => fst e <? nadders) b) batches
           && forallb (adder_ok per batches) (map N.of_nat (seq 0 (N.to_nat nadders)))
